@@ -28,9 +28,18 @@ DEC = {k: v.replace("add_", "decode_") for k, v in ADD.items()}
 
 
 class FloatBits(object):
-    """a float standing for its IEEE bit pattern (network order bytes)"""
+    """a float standing for its IEEE bit pattern (network order bytes).
+
+    Code that only moves the value around never notices. Code that inspects the numeric value (compares it,
+    takes abs(), ...) cannot be followed with a bit pattern: that path is abandoned (the obligation then reports
+    VACUOUS/inconclusive) and the numeric behaviour is left to the extremes.* obligations, which use real floats."""
     def __init__(self, raw):
         self.raw = raw
+
+    def _numeric(self, *a):
+        assume(False)
+    __abs__ = __neg__ = __float__ = __lt__ = __le__ = __gt__ = __ge__ = __add__ = __sub__ = __mul__ = __truediv__ = _numeric
+    __radd__ = __rsub__ = __rmul__ = __round__ = __int__ = __bool__ = _numeric
 
 
 def _install_float_passthrough():
@@ -130,6 +139,47 @@ def make_seq(types, byteorder, wordorder):
     return seq
 
 
+def _special_floats(width):
+    import struct
+    fmt = {2: "!e", 4: "!f", 8: "!d"}[width]
+    top = {2: 0x7BFF, 4: 0x7F7FFFFF, 8: 0x7FEFFFFFFFFFFFFF}[width]          # largest finite
+    inf = {2: 0x7C00, 4: 0x7F800000, 8: 0x7FF0000000000000}[width]
+    sign = 1 << (8 * width - 1)
+    pats = [0, sign, 1, sign | 1, top, sign | top, top - 1, inf, sign | inf, inf - 1, (inf >> 1) + 1,
+            {2: 0x3C00, 4: 0x3F800000, 8: 0x3FF0000000000000}[width],       # 1.0
+            {2: 0x0400, 4: 0x00800000, 8: 0x0010000000000000}[width],       # smallest normal
+            {2: 0x03FF, 4: 0x007FFFFF, 8: 0x000FFFFFFFFFFFFF}[width],       # largest subnormal
+            {2: 0x3555, 4: 0x3EAAAAAB, 8: 0x3FD5555555555555}[width]]       # ~1/3
+    return [(p.to_bytes(width, "big"), struct.unpack(fmt, p.to_bytes(width, "big"))[0]) for p in pats]
+
+
+def make_extremes(t, byteorder, wordorder):
+    """real float values (no bit-pattern pass-through): the table of special values below, selected by a symbolic index"""
+    width = TYPES[t][0]
+    table = _special_floats(width)
+
+    def extremes(i: int) -> bool:
+        from pymodbus.payload import BinaryPayloadBuilder, BinaryPayloadDecoder
+        import struct
+        assume(0 <= i < len(table))
+        raw, val = table[i]
+        b = BinaryPayloadBuilder(byteorder=byteorder, wordorder=wordorder)
+        getattr(b, ADD[t])(val)
+        img = b.to_string()
+        if not same(img, image_of(t, raw, byteorder, wordorder), "register image of %r" % (val,)):
+            return False
+        for d in (BinaryPayloadDecoder(img, byteorder=byteorder, wordorder=wordorder),
+                  BinaryPayloadDecoder.fromRegisters(b.to_registers(), byteorder=byteorder, wordorder=wordorder)):
+            got = getattr(d, DEC[t])()
+            if isinstance(got, FloatBits):
+                got = struct.unpack({2: "!e", 4: "!f", 8: "!d"}[width], bytes(got.raw))[0]
+            if struct.pack({2: "!e", 4: "!f", 8: "!d"}[width], got) != raw:
+                explain("value %r came back as %r", val, got)
+                return False
+        return True
+    return extremes
+
+
 SINGLES = ["u8", "i8", "u16", "i16", "u32", "i32", "u64", "i64", "f16", "f32", "f64", "bits", "str3"]
 SEQS_QUICK = [("u8", "u32"), ("i16", "f32", "u8"), ("str3", "i64"), ("bits", "u16", "i32")]
 SEQS_THOROUGH = SEQS_QUICK + [("u64", "i8", "f64"), ("f16", "u8", "u8"), ("i32", "i32", "i32"), ("u8", "u8", "u8"),
@@ -148,6 +198,12 @@ def obligations(tier):
                 out.append(Obl(name, make_seq(types, bo, wo), timeout=T, contracts=contracts,
                                bounds="values of types %s: every bit pattern (%d symbolic bytes); byteorder %s, wordorder %s; raw and register transport" % (
                                    list(types), sum(TYPES[t][0] for t in types), bo, wo)))
+    for t in ("f16", "f32", "f64"):
+        for bo in (">", "<"):
+            for wo in (">", "<"):
+                out.append(Obl("extremes.%s.byte%s.word%s" % (t, "BE" if bo == ">" else "LE", "BE" if wo == ">" else "LE"),
+                               make_extremes(t, bo, wo), timeout=T,
+                               bounds="real float values: +-0, smallest/largest subnormal, smallest normal, largest finite and its predecessor, +-inf, 1.0, 1/3 (15 values, chosen by a symbolic index), through the real struct conversion"))
     if contracts is not None:
         from harness import kernels
         out.insert(0, kernels.K3(tier))
